@@ -16,10 +16,12 @@ TEXT = ("N1 (provenance): in the pack writer and in commit the storage key deriv
         "list_objects}, and no destructive API (remove/rename/truncate/overwrite of files, map removal on a backend "
         "store, SQL DELETE/UPDATE/REPLACE/DROP, HTTP DELETE) is reachable from any Adapter method or from "
         "Melda/DataStorage. N3: every leaf backend's write is write-once (shared with C17/S1). N4: meld copies packs "
-        "byte for byte from the verified loader and re-serialises blocks with the same serializer commit uses. "
+        "and blocks byte for byte: the bytes written are an unmodified view of the verified pack loader's result / of a "
+        "raw read of the source for the same key on the match edge of a digest comparison with the identifier, behind a "
+        "successful fetch + structural load (re-serialising a parsed block is rejected: parse-print is not the identity "
+        "on floats); the loader drops a field when empty only if commit never writes it empty. "
         "Configuration sub-check: serde_json is resolved without preserve_order / arbitrary_precision so object keys "
-        "serialise sorted. Does not decide parse-print idempotence of serde_json over all metadata values, nor monotone "
-        "growth over a history.")
+        "serialise sorted. Does not decide monotone growth over a history.")
 TECHNIQUE = 'static analysis over rustc MIR: content-addressing provenance (key = hash of written bytes), effect classification of backend writes under an absence test, absence of destructive effects, print/parse normal-form agreement for blocks'
 TRUSTED = ["rustc nightly MIR", "sha2/hex", "serde_json::to_string is deterministic for a given Value", "cargo metadata reports the resolved feature set"]
 
@@ -32,7 +34,7 @@ def run(facts, res):
     res.rule("N1", "the storage key is the hash of exactly the bytes written (no mutation in between); block index from the serialised parents")
     res.rule("N2", "no delete / overwrite capability exists or is reachable from the storage API")
     res.rule("N3", "every leaf backend's write is write-once")
-    res.rule("N4", "meld copies packs byte for byte from the verified loader; blocks use commit's serializer")
+    res.rule("N4", "meld copies packs and blocks byte for byte: unmodified, verified raw bytes of the source item")
     res.rule("N0", "serde_json is built without preserve_order / arbitrary_precision (sorted keys, canonical numbers)")
 
     # ------------------------------------------------------------------ N1
@@ -194,16 +196,37 @@ def run(facts, res):
                         res.violation("N4", "meld|pack-not-copied-verbatim", "meld writes pack bytes that are not the unmodified result of try_load_pack for the same pack id (%s)" % fmt(data, 5), cb.loc(t.line))
                 elif contains_call(key, "melda::DeltaId::key"):
                     n4 += 1
-                    ok = contains_call(data, "to_json_string") and contains_call(data, R.name("loader")) and contains_call(data, R.name("fetcher"))
-                    res.instance("N4", "%s: block bytes = to_json_string(load_raw_delta(fetch_raw_delta(id))) - the serializer commit uses: %s" % (cb.path, ok), cb.loc(t.line))
+                    # byte for byte: the bytes written are an unmodified view of a raw read of the source for the same key, that
+                    # read's digest was compared with the identifier's digest (match edge), and the block passed the verified
+                    # fetch + structural load. Serialising the parsed block again is NOT accepted: parse/print is not the
+                    # identity on everything commit can write (floating point numbers in the commit information).
+                    src = _view_source(data)
+                    raw = src is not None and src[0] == "call" and callee_name(src) == R.name("raw_read")
+
+                    def elem_ids(tt):
+                        return {("p", x[1]) for x in walk(tt) if x[0] == "param"} | {("n", x[3]) for x in walk(tt) if x[0] == "call" and callee_name(x) == "next"}
+                    same = raw and len(src[2]) > 1 and bool(elem_ids(src[2][1]) & elem_ids(key))
+                    matched = validated_f = validated_l = False
+                    for l in lits_of(cb, bi, facts):
+                        if l.kind == "call" and callee_name(l.term) in ("eq", "ne") and l.truth is (callee_name(l.term) == "eq") and len(l.term[2]) >= 2:
+                            a_, b_ = l.term[2][0], l.term[2][1]
+                            for x_, y_ in ((a_, b_), (b_, a_)):
+                                if raw and any(c_[0] == "call" and callee_name(c_) in ("digest_bytes", "digest_string") and
+                                               any(z is src or (z[0] == "call" and z[3] == src[3] and callee_name(z) == callee_name(src)) for z in walk(c_))
+                                               for c_ in walk(x_)) and contains_call(y_, "digest") and bool(elem_ids(y_) & elem_ids(key)):
+                                    matched = True
+                        if l.says_ok() and contains_call(l.term if l.kind == "variant" else l.term[2][0], R.name("fetcher")):
+                            validated_f = True
+                        if l.says_ok() and contains_call(l.term if l.kind == "variant" else l.term[2][0], R.name("loader")):
+                            validated_l = True
+                    ok = raw and same and matched and validated_f and validated_l
+                    res.instance("N4", "%s: block bytes = raw bytes of the source item (%s) for the same key (%s), digest compared with the identifier (%s), block validated by fetch + load (%s/%s)" % (
+                        cb.path, raw, same, matched, validated_f, validated_l), cb.loc(t.line))
                     if not ok:
-                        res.violation("N4", "meld|block-not-from-verified-loader", "meld writes block bytes that do not come from the verified loader + the commit serializer (%s)" % fmt(data, 5), cb.loc(t.line))
-        cm = facts.body("melda::Melda::commit")
-        if cm is not None:
-            ok = any(t.callee is not None and t.callee.name == "to_json_string" for _, t in cm.calls())
-            res.instance("N4", "commit serialises the block with Delta::to_json_string: %s" % ok, cm.loc())
-            if not ok:
-                res.violation("N4", "commit|different-serializer", "commit no longer serialises blocks with Delta::to_json_string (meld re-serialises with it)", cm.loc())
+                        res.violation("N4", "meld|block-not-copied-verbatim",
+                                      "meld writes block bytes that are not the verified raw bytes of the source's item (raw read: %s, same key: %s, digest match edge: %s, "
+                                      "validated: %s/%s; value: %s): a re-serialised or unverified block need not hash to its name on the receiver" % (
+                                          raw, same, matched, validated_f, validated_l, fmt(data, 5)), cb.loc(t.line))
     # N4b: meld re-serialises blocks through the loader, so the loader may normalise a field (drop it when empty) only if
     # commit never writes that field empty
     ld = R.body("loader")
